@@ -54,7 +54,21 @@ def check_calculate_index(prop, res, repo):
     p0 = [p for p in ci.params if p != "self"][0]
     # first use of the start parameter must be its own normalisation through absindex(p, len(self.candles))
     loads = sorted((n for n in ast.walk(fn) if isinstance(n, ast.Name) and n.id == p0 and isinstance(n.ctx, ast.Load)), key=lambda n: (n.lineno, n.col_offset))
-    norm = [s for s in fn.body if isinstance(s, ast.Assign) and isinstance(s.value, ast.Call) and call_name(s.value) == "absindex" and [ast.unparse(a) for a in s.value.args] == [p0, "len(self.candles)"] and any(ast.unparse(t) == p0 for t in s.targets)]
+    _defs = {}
+    for _n in ast.walk(fn):
+        if isinstance(_n, ast.Assign) and len(_n.targets) == 1 and isinstance(_n.targets[0], ast.Name):
+            _defs.setdefault(_n.targets[0].id, []).append(ast.unparse(_n.value))
+
+    def _r(e):
+        t = ast.unparse(e)
+        return _defs[t][0] if len(_defs.get(t, ())) == 1 and t != p0 else t
+
+    # the normalised value may be kept in the parameter itself or in a new local; the raw parameter must not be used again afterwards
+    norm = [s for s in fn.body if isinstance(s, ast.Assign) and isinstance(s.value, ast.Call) and call_name(s.value) == "absindex" and len(s.value.args) == 2 and ast.unparse(s.value.args[0]) == p0 and _r(s.value.args[1]) == "len(self.candles)" and len(s.targets) == 1 and isinstance(s.targets[0], ast.Name)]
+    if norm and ast.unparse(norm[0].targets[0]) != p0:
+        later = [n for n in loads if n not in list(ast.walk(norm[0]))]
+        if later:
+            norm = []
     if norm and loads and loads[0] in list(ast.walk(norm[0])):
         res.ok(rule, {"site": f"{ci.where} {norm_construct(norm[0])}", "why": "a negative index is made absolute before it becomes the active index / a list position"}, nontrivial="calculate_index:absindex")
         nxt = fn.body[fn.body.index(norm[0]) + 1] if fn.body.index(norm[0]) + 1 < len(fn.body) else None
@@ -85,7 +99,10 @@ def check_calculate_index(prop, res, repo):
         res.fail("R-DRIVE", finding(prop, "R-DRIVE", sai, sai.node, "_set_active_index must also move the cursor of the managed helpers", construct="_set_active_index: managed helpers"))
     hci = repo.method("hexital.core.hexital", "Hexital", "calculate_index")
     calls = [c for c in calls_in(hci.node) if call_name(c) == "calculate_index"]
-    if len(calls) == 1 and [ast.unparse(a) for a in calls[0].args] == ["index"]:
+    _ip = repo.method("hexital.core.indicator", "Indicator", "calculate_index")
+    from ..structure import arg_of as _arg_of
+
+    if len(calls) == 1 and _arg_of(calls[0], _ip, 0) is not None and ast.unparse(_arg_of(calls[0], _ip, 0)) == "index" and (len(calls[0].args) + len(calls[0].keywords)) == 1:
         res.ok(rule, {"site": hci.where, "why": "delegates the index unchanged to Indicator.calculate_index, which normalises it"})
     else:
         res.fail(rule, finding(prop, rule, hci, hci.node, "Hexital.calculate_index must delegate its index to Indicator.calculate_index", construct="Hexital.calculate_index: delegate"))
